@@ -120,8 +120,11 @@ class Soap12(Soap11):
             subelts[0] = code
 
         if isinstance(inst.detail, dict):
-            _append(subelts, E('{%s}Detail' % self.ns_soap_env,
-                                               root_dict_to_etree(inst.detail)))
+            # the detail dict may have any number of entries: they all go
+            # under the Detail element (as in SOAP 1.1)
+            if len(inst.detail) > 0:
+                _append(subelts, root_dict_to_etree(
+                         {'{%s}Detail' % self.ns_soap_env: inst.detail}))
 
         elif inst.detail is None:
             pass
